@@ -11,7 +11,7 @@
 (* Expr     <<"c",d,i>>        column i of the row at depth d (0 = own)    *)
 (*          <<"k",v>>          constant value v                            *)
 (*          <<op,a,b>>         + - * / % = <> < <= > >= and or like        *)
-(*          <<"not",a>> <<"neg",a>> <<"isnull",a>> <<"notnull",a>>         *)
+(*          <<"not",a>> <<"neg",a>> <<"isnull",a>> <<"notnull",a>> <<"castb",a>>        *)
 (*          <<"case",c,a,b>>   CASE WHEN c THEN a ELSE b END               *)
 (*          <<"in",a,<<v..>>,neg>>       a [NOT] IN (constants)            *)
 (*          <<"insub",a,q,neg>> <<"exists",q,neg>> <<"scalar",q>>          *)
@@ -167,6 +167,7 @@ Ev(e, env, grp, db) ==
       [] k = "k" -> e[2]
       [] k = "not" -> Not3(Ev(e[2], env, grp, db))
       [] k = "neg" -> LET v == Ev(e[2], env, grp, db) IN IF IsNull(v) THEN Null ELSE I(0 - v[2])
+      [] k = "castb" -> LET v == Ev(e[2], env, grp, db) IN IF IsNull(v) THEN Null ELSE B(v[2] # 0)
       [] k = "isnull"  -> B(IsNull(Ev(e[2], env, grp, db)))
       [] k = "notnull" -> B(~IsNull(Ev(e[2], env, grp, db)))
       [] k = "case" -> IF IsTrue(Ev(e[2], env, grp, db)) THEN Ev(e[3], env, grp, db)
